@@ -113,7 +113,7 @@ SPEC = {
     'harness_flags': (_api_rev(),),
     # C10(b): besides its own cursor model (match) C10 re-audits the in-bounds / totality theorems that the other properties
     # proved about the manual index and iterator cores named in C10's anchors (they live with the property that models the core)
-    'lean_modules': ['AITB.Props.C10', 'AITB.Props.C10Util', 'AITB.Props.C10Choose', 'AITB.Props.C10Sites', 'AITB.Props.C10FG', 'AITB.Props.C10Naive', 'AITB.Props.C10Union', 'AITB.Props.C10BG', 'AITB.Props.C20', 'AITB.Props.C11Traces', 'AITB.Props.C12Interp', 'AITB.Props.C12InterpValue', 'AITB.Props.C12Prune', 'AITB.Props.C12PruneStrong', 'AITB.Props.C08Dense',
+    'lean_modules': ['AITB.Props.C10', 'AITB.Props.C10Util', 'AITB.Props.C10Choose', 'AITB.Props.C10Sites', 'AITB.Props.C10FG', 'AITB.Props.C10Naive', 'AITB.Props.C10Union', 'AITB.Props.C10BG', 'AITB.Props.C10Contains', 'AITB.Props.C20', 'AITB.Props.C11Traces', 'AITB.Props.C12Interp', 'AITB.Props.C12InterpValue', 'AITB.Props.C12Prune', 'AITB.Props.C12PruneStrong', 'AITB.Props.C08Dense',
                      'AITB.Props.C08', 'AITB.Props.C08Vose', 'AITB.Props.C18', 'AITB.Props.C14', 'AITB.Props.C14c', 'AITB.Props.C19', 'AITB.Props.C17', 'AITB.Props.C20h', 'AITB.Props.C06', 'AITB.Props.C06Factored', 'AITB.Props.C08Models', 'AITB.Props.C04', 'AITB.Props.C09a'],
     'theorems': [# round 4: shared index helpers one level below the anchored code
                  'AITB.CursorUtil.advance_spec', 'AITB.CursorUtil.advance_total', 'AITB.CursorUtil.advance_empty_oob', 'AITB.CursorUtil.advance_lowest',
@@ -126,6 +126,7 @@ SPEC = {
                  'AITB.FGCursor.eraseVar_keeps_inv', 'AITB.FGCursor.fg_history_safe', 'AITB.FGCursor.eraseVar_asymmetric_witness',
                  'AITB.CursorUtil.naive_rows_first', 'AITB.CursorUtil.naive_row_cache_correct', 'AITB.CursorUtil.naive_stale_row_witness', 'AITB.CursorUtil.naive_index_in_range',
                  'AITB.CursorUtil.setDiffLoop_eq_rec', 'AITB.CursorUtil.setUnion_is_sorted_union',
+                 'AITB.CursorUtil.containsLoop_eq_rec', 'AITB.CursorUtil.recContains_spec', 'AITB.CursorUtil.containsScan_decides_inclusion',
                  'AITB.BGCursor.selectStep_total', 'AITB.BGCursor.selectLoop_total', 'AITB.BGCursor.selectLoop_overrun_witness', 'AITB.BGCursor.selection_misaligns_distances',
                  'AITB.Cursor.matchLoop_total', 'AITB.Cursor.match_no_oob', 'AITB.Cursor.matchOrig_oob_witness', 'AITB.Cursor.uses_subset_provides',
                  'AITB.Trie.trie_cursor_refines_spec', 'AITB.Trie.applyCursor_eq',                      # Trie::applyFilters k-way cursor loop, getAllIds/size/erase
